@@ -28,6 +28,13 @@ def corpus():
         "c20 k_archive_fav cbe=fs sbe=fs devs=2 hist=s0|c0:a|c0:c|s0|s1|a0:a|s0|s1|A1:a|x0:c|s0|s1|s0|o1|s1",
         "c20 k_import_copy cbe=fs sbe=fs devs=2 hist=c0:a|c0:b|i0:0|u0:a|x0:b|o0|u0:a|s0|s1",
         "c20 k_archive_del cbe=fs sbe=fs devs=2 hist=s0|c0:a|c0:c|c0:b|a0:c|a0:a|s0|s1|x1:c|u1:a|s1|s0|o0|s0",
+        # forced overwrite (what a hard conflict does): the folder is replaced wholesale, grows / shrinks
+        "c20 k_force_grow cbe=fs sbe=fs devs=2 hist=c0:a|c0:b|c1:c|h1:0:0|u1:a|o1",
+        "c20 k_force_grow_db cbe=db sbe=fs devs=2 hist=c0:a|c0:b|c1:c|h1:0:0|u1:a|o1",
+        # a folder forgotten (dropped from memory only) is no longer an indexed folder
+        "c20 k_forget cbe=fs sbe=fs devs=2 hist=f0:1|c0:a@1|c0:b|R0:1|u0:b|o0",
+        "c20 k_forget_db cbe=db sbe=fs devs=2 hist=f0:1|c0:a@1|c0:b|R0:1|u0:b",
+        "c20 k_force_shrink cbe=fs sbe=fs devs=2 hist=c1:a|c1:b|c1:c|c0:b|h1:0:0|o1",
     ]
 
 
@@ -42,7 +49,9 @@ def gen_cases(rng, tier):
         for _ in range(rng.randrange(0, 4)):
             d = rng.randrange(2)
             r = rng.random()
-            op = rng.choice(["a%d:%s", "a%d:%s", "A%d:%s"]) % (d, rng.choice("abc")) if r < 0.7 else ("i%d:0" % d if r < 0.85 else "o%d" % d)
+            op = (rng.choice(["a%d:%s", "a%d:%s", "A%d:%s"]) % (d, rng.choice("abc")) if r < 0.6 else
+                  "h%d:0:%d" % (d, 1 - d) if r < 0.75 else "i%d:0" % d if r < 0.85 else
+                  "R%d:%d" % (d, rng.choice([1, 1, 2])) if r < 0.9 and j % 2 == 0 else "o%d" % d)
             h.insert(rng.randrange(2, max(3, body)), op)
         be = "db" if j % 4 == 1 else "fs"
         if be == "db":
@@ -62,8 +71,15 @@ def model_input(cases, impl):
             t = o.split()
             if len(t) >= 4 and t[0].startswith("!") and t[2] == "events":
                 per.setdefault((int(t[0][1:]), t[1]), []).append("%s=%s" % (t[3], t[4] if len(t) > 4 else ""))
+        # whole-folder steps: the model applies ix_force / ix_forget to the previous step's index of that device
+        steps, _ = acct.parse(impl.get(cid, []))
         for (st, who), fl in sorted(per.items()):
-            out.append("%s %s %d %s %s" % (SUB, cid, st, who, " ".join(fl)))
+            op = (steps.get(st, {}).get("op") or "")
+            mark = ""
+            if who == "D" + op[1:2]:
+                if op[:1] == "h" and steps[st].get("res") == "ok": mark = " @force=f0"
+                if op[:1] == "R": mark = " @forget"
+            out.append("%s %s %d %s %s%s" % (SUB, cid, st, who, " ".join(fl), mark))
         if not per:
             out.append("%s %s" % (SUB, cid))
     return out
